@@ -340,8 +340,32 @@ def json_guard_rule(ck, P):
                  "an array element is parsed but not kept (%d parsed, %d pushed)" % (len(calls), len(pushed)), ir.loc(b))
 
 
+def vt_meta_guard_rule(ck, P):
+    """the versatiles reader parses the stored metadata exactly when the header declares a non-empty metadata range (and falls back to
+    the default document only for an empty one)"""
+    from . import census
+    ob = [b for b in P.bodies if b["q"].endswith("versatiles::reader::VersaTilesReader::open_reader")]
+    if not ck.anchor("E-COMP-META", "VersaTilesReader::open_reader", ob, 1):
+        return
+    b = ob[0]
+    parse = census.nodes_with_facts(ir.fn_block(b), lambda y: y.get("k") == "call" and (y.get("q") or "").endswith("TileJSON::try_from_blob_or_default"))
+    dflt = census.nodes_with_facts(ir.fn_block(b), lambda y: y.get("k") == "call" and (y.get("q") or "").endswith("TileJSON as core::default::Default>::default") or
+                                   (y.get("k") == "call" and (y.get("rvq") or "").endswith("TileJSON as core::default::Default>::default")))
+    ok = False
+    why = "%d parse site(s)" % len(parse)
+    if len(parse) == 1:
+        cm = [f for f in parse[0][1] if f[0] == "cmp" and f[1].endswith("meta_range.length")]
+        ok = bool(cm) and cm[-1][2:] in ((">", "0"), ("!=", "0"), (">=", "1"))
+        why = "parsed under %s" % [" ".join(map(str, f[1:])) for f in parse[0][1]]
+        # what is parsed is the meta range, decompressed with the header's compression
+        rr = [y for y in ir.walk_nodes(b["body"]) if y.get("k") == "mcall" and (y.get("q") or "").endswith("DataReaderTrait::read_range") and ir.place_str(y["a"][0]).endswith("meta_range")]
+        ok = ok and len(rr) == 1
+    ck.check(ok, "E-COMP-META", b["q"] + "|meta-guard", "stored metadata is read and parsed exactly when header.meta_range.length > 0", "the versatiles reader does not parse its metadata when it is present (%s)" % why, ir.loc(b))
+
+
 def rules(ck, P):
     merge_rule(ck, P)
+    vt_meta_guard_rule(ck, P)
     json_guard_rule(ck, P)
     meta_read_rule(ck, P)
     mbtiles_meta_rule(ck, P)
